@@ -30,7 +30,7 @@ type valDom struct {
 	opaqueSort bool
 	// sortProbe: a call of slices.SortFunc is answered by interpreting its comparator on the first two elements
 	sortProbe bool
-	why        string
+	why       string
 }
 
 // ord is the three-way comparison of a and b as one symbol; ord(b,a) is the same symbol negated.
